@@ -102,6 +102,8 @@ def _radial_check(a):
         decoy = _make_tube(dict(a, rho_cp_grout=a.get("rho_cp_grout", 3901000.0) * 0.5, rho_cp_pipe=a.get("rho_cp_pipe", 1542000.0) * 1.7, **other_fluid))
         rn = RadialNumericalBH(decoy)
         rn.calc_sts_g_functions(decoy)
+        # ... then, on the same object, the borehole with THIS fluid (same characteristic time and resistances as the case) but the other heat capacities
+        rn.calc_sts_g_functions(_make_tube(dict(a, rho_cp_grout=a.get("rho_cp_grout", 3901000.0) * 0.5, rho_cp_pipe=a.get("rho_cp_pipe", 1542000.0) * 1.7)))
         captured = []
         real_fill = rn.fill_radial_cells
 
